@@ -94,7 +94,10 @@ def main():
 					"transposed storage, offset and strided views)." if pid
 					in LAYOUT_CHECKS else "") + " Every fifth unit of the "
 					"plan is repeated in a process whose torch default dtype "
-					"is float64. Verdict: held on the "
+					"is float64, every seventh under each of two glibc "
+					"MALLOC_PERTURB_ fill patterns (reads of uninitialised or "
+					"out-of-bounds heap memory change the result). Verdict: "
+					"held on the "
 					"executions observed (counts in the evidence file), "
 					"violated with a replay file, or inconclusive when a "
 					"required monitor saw too little.",
